@@ -19,6 +19,7 @@ func init() {
 			"PV-API IsValidLabel: first character by the identifier-start predicate, the rest by the identifier predicate (the names unpack and regexp accept)",
 			"LP-PIPE: each stage is fed the previous stage's line",
 			"PV-API pattern literals are prefixes; pattern/JSON-path readers decode runes; KeyToLabel class table",
+			"PV-ALIAS no unsafe.String in the engine or the backend; LP-OFFLOAD stops at stages that rewrite the line (unpack included)",
 		},
 		NotDecided: []string{"that jx, logfmt and regexp return the values that are in the document", "logqlpattern.Match's literal/capture alternation", "JSON path parsing"},
 		Rules: func(r *Run) {
@@ -49,6 +50,8 @@ func init() {
 			rulePatternLiteralAnchored(r)
 			ruleReadersDecodeRunes(r)
 			ruleKeyToLabel(r)
+			ruleNoUnsafeStrings(r, []string{enginePkg, dockerlogPkg})
+			ruleLPOffload(r) // a filter after unpack is evaluated on the unpacked line
 		},
 	})
 }
